@@ -2,6 +2,8 @@ import HmfVerif.Real.Tactics
 import HmfVerif.Gen.ExprFlow
 import HmfVerif.Proofs.ExprLemmas
 import HmfVerif.Spec.Wiring
+import HmfVerif.Gen.Guards
+import HmfVerif.Spec.Guards
 /-!
 # C02 — dn/dm is assembled exactly from its ingredients, independent of the mass grid
 Statements about the bodies of the `MassFunction` quantities as regenerated from `hmf.py`
@@ -93,5 +95,8 @@ theorem sigma_nu_inputs :
 theorem hmf_component_wiring : Gen.Flow.wiring.lookup "MassFunction.hmf" = some Spec.Wiring.hmf := by decide
 /-- the object's cosmology is the base model with exactly `cosmo_params` applied -/
 theorem cosmology_wiring : Gen.Flow.wiring.lookup "Cosmology.cosmo" = some Spec.Wiring.cosmo := by decide
+
+/-- thresholds in hmf.py (the non-linear-mass bracketing tests, the 10^16.5 tail limit, the δc range) are the documented ones; no new special case -/
+theorem guards_mass_function : Gen.Guards.massFunction = Spec.Guards.massFunction := by decide
 
 end Hmf.C02
